@@ -723,6 +723,58 @@ pub fn eval_c20(sc: &Scenario, h: &History, _signed: &Signeds, out: &mut Outcome
                 }
             }
         }
+        // the same withdrawals, handed to the typed map by the same sequence of set / replace calls the
+        // history made on the builder: helper on such a body = the builder's own figure
+        {
+            let last_reset = sc.ops.iter().enumerate().take(op).filter(|(_, o)| matches!(o, Op::RemoveWithdrawals)).map(|(i, _)| i + 1).last().unwrap_or(0);
+            let mut typed = csl::Withdrawals::new();
+            let mut calls = 0;
+            let mut replaced = 0;
+            for (i, o) in sc.ops.iter().enumerate().take(op).skip(last_reset) {
+                if !h.results.get(i).map_or(false, |r| r.is_ok()) {
+                    continue;
+                }
+                match o {
+                    Op::Wdr(c, amt, _) => {
+                        if typed.insert(&sc.world.reward_address(c), &csl::BigNum::from(*amt)).is_some() {
+                            replaced += 1;
+                        }
+                        calls += 1;
+                    }
+                    Op::SetWithdrawalsLegacy => {
+                        // the old setter was handed the key-credential accounts only
+                        let mut keep = csl::Withdrawals::new();
+                        let keys = typed.keys();
+                        for j in 0..keys.len() {
+                            let ra = keys.get(j);
+                            if !ra.payment_cred().has_script_hash() {
+                                if let Some(c) = typed.get(&ra) {
+                                    keep.insert(&ra, &c);
+                                }
+                            }
+                        }
+                        typed = keep;
+                    }
+                    _ => {}
+                }
+            }
+            if calls > 0 {
+                let mut body2 = csl::TransactionBody::new_tx_body(&csl::TransactionInputs::new(), &csl::TransactionOutputs::new(), &csl::BigNum::from(0u64));
+                body2.set_withdrawals(&typed);
+                if let Some(cs) = body.certs() {
+                    body2.set_certs(&cs);
+                }
+                out.count("c20.same_sequence_bodies_checked", 1);
+                if replaced > 0 {
+                    out.count("c20.same_sequence_with_replaced_account", 1);
+                }
+                let a = csl::get_implicit_input(&body2, &csl::BigNum::from(k.pool_deposit), &csl::BigNum::from(k.key_deposit)).ok().map(|v| u64::from(v.coin()));
+                let b2 = builder.get_implicit_input().ok().map(|v| u64::from(v.coin()));
+                if a != b2 {
+                    out.violate("C20.same_sequence", "helper_and_builder_differ_on_the_same_withdrawal_calls", format!("op {}: get_implicit_input on a body whose withdrawal map was filled by the history's {} set/replace calls = {:?}, the builder's figure = {:?}", op, calls, a, b2));
+                }
+            }
+        }
         let _ = &cx;
     }
 }
